@@ -38,7 +38,8 @@ LEVEL_TEXT = ("Exploration: hundreds to thousands of stacks (all permutations of
               "nodes, dyadic / anisotropic / generic resolutions, radii around the voxel size, "
               "positions up to |1000|, explicit ranges), every voxel compared. Held = held on those "
               "executions."
-              "A third of the rasters are repeated with the same transformer on the same tree object after an in-place edit.")
+              "A third of the rasters are repeated with the same transformer on the same tree object after an in-place edit."
+              " Trees derived from an already rasterised tree (sort_tree, redirect_tree, a tip re-attached in place) are rasterised too.")
 LEVEL_NOTE = ("Raster workload bounded to proper round cones (segment longer than the radius "
               "difference by a margin) and trees with >= 2 nodes; a voxel centre within 1e-3 of the "
               "surface, or a boundary centre within 1e-4 of the upper bound, is not decided. Trusts "
@@ -55,7 +56,7 @@ REQUIRED = ["io_roundtrips", "io_tiff", "io_npy", "io_nrrd", "io_uint_to_float",
             "voxels_lit", "raster_anisotropic", "raster_generic_resolution", "raster_far_positions",
             "raster_saved_and_read", "raster_explicit_ranges", "raster_thin_tiles",
             "raster_whole_brain_coordinates",
-            "rasters_after_inplace_edit",
+            "rasters_after_inplace_edit", "rasters_of_derived_trees",
             "tap_get_samplers"]
 FLOOR = {"quick": 450, "thorough": 9000}
 SHARDS = {"quick": 8, "thorough": 16}
@@ -259,14 +260,50 @@ def check_raster(ctx, case, tmp):
         j = int(rng.integers(0, n))
         tree.node(j).r = float(tree.node(j).r * 1.6)
         ctx.count("rasters_after_inplace_edit")
-        _raster_pass(ctx, case, tmp, tree, pid, tf, res_arg, "after an in-place edit of the tree: ")
+        if _raster_pass(ctx, case, tmp, tree, pid, tf, res_arg,
+                        "after an in-place edit of the tree: ") is not True:
+            return
+    dv = case.get("derive")
+    if dv and case["ranges"] == "auto" and len(pid) >= 3:
+        # trees derived from the one just rasterised (and therefore already walked): renumbered,
+        # re-rooted, or with a tip re-attached in place; the raster follows the tree as it is now
+        from swcgeom.core import redirect_tree, sort_tree
+
+        rng = np.random.default_rng(case["seed"] + 17)
+        X0, R0 = tree.xyz().astype(np.float64), tree.r().astype(np.float64)
+        pid0 = np.array(tree.pid())
+        ctx.count("rasters_of_derived_trees")
+        if dv == "sort":
+            _raster_pass(ctx, case, tmp, sort_tree(tree), pid0, tf, res_arg,
+                         "sort_tree of a tree rasterised before: ", geom=(X0, R0))
+        elif dv == "reroot":
+            v = int(rng.integers(1, len(pid0)))
+            # (sort=True: with sorting off the root is no longer node 0, and the library's
+            # traversals -- the rasteriser's included -- start at node 0 by convention)
+            _raster_pass(ctx, case, tmp, redirect_tree(tree, v, sort=True), pid0, tf, res_arg,
+                         f"redirect_tree(.., {v}) of a tree rasterised before: ", geom=(X0, R0))
+        else:
+            kids = np.bincount(pid0[pid0 >= 0], minlength=len(pid0))
+            tips = [int(i) for i in np.nonzero(kids == 0)[0] if i != 0]
+            k = tips[int(rng.integers(0, len(tips)))]
+            cand = [j for j in range(len(pid0)) if j not in (k, int(pid0[k]))]
+            j = cand[int(rng.integers(0, len(cand)))]
+            tree.node(k).pid = j
+            pid1 = pid0.copy()
+            pid1[k] = j
+            _raster_pass(ctx, case, tmp, tree, pid1, tf, res_arg,
+                         f"after re-attaching tip {k} to node {j} in place: ")
 
 
-def _raster_pass(ctx, case, tmp, tree, pid, tf, res_arg, prefix):
+def _raster_pass(ctx, case, tmp, tree, pid, tf, res_arg, prefix, geom=None):
     from swcgeom.images.io import read_imgs
 
     X = tree.xyz().astype(np.float64)
     R = tree.r().astype(np.float64)
+    if geom is not None:
+        # the rasterised tree is a renumbering / re-rooting of another one: same points, same
+        # undirected edges, so the same union of rounded cones (given by the harness)
+        X, R = geom
     for c, p in enumerate(pid):
         if p >= 0 and np.linalg.norm(X[c] - X[p]) <= abs(R[c] - R[p]) * 1.1 + 1e-3:
             ctx.skip("an edge is not a proper round cone")
@@ -480,6 +517,8 @@ def run(ctx):
                     "ranges": str(rng.choice(["auto", "auto", "auto", "pad", "crop", "slab", "slab"])),
                     "save": bool(rng.random() < 0.25), "edit": bool(rng.random() < 0.35),
                     "res_form": str(rng.choice(["list", "tuple", "array", "array32"]))}
+            if rng.random() < 0.4:
+                case["derive"] = str(rng.choice(["sort", "reroot", "relink"]))
             if case["ranges"] == "slab":  # long thin segments, so that they cross the tile
                 case["step"], case["rscale"] = 6.0, 0.8
             if whole_brain:  # short segments (1-2 voxels of 1/8), still far longer than an ulp
